@@ -20,6 +20,7 @@ import (
 	"strconv"
 	"strings"
 	"sync"
+	"syscall"
 	"time"
 
 	"github.com/aergoio/aergo-actor/actor"
@@ -1686,6 +1687,17 @@ func MainChain() {
 // are not the pool's. Without -race the binary runs the same mix and evaluates the property at quiescence.
 func MainRace() {
 	zerolog.SetGlobalLevel(zerolog.Disabled)
+	// A binary built with -race exits with status 66 when any race was reported (also a listed one), which the check
+	// would take for a crash of the harness: the reports are read from GORACE's log_path, the exit status must stay 0.
+	// GORACE is read by the runtime at start-up, so re-execute once with exitcode=0 appended.
+	if g := os.Getenv("GORACE"); g != "" && !strings.Contains(g, "exitcode=") {
+		if exe, err := os.Executable(); err == nil {
+			env := append(os.Environ(), "GORACE="+g+" exitcode=0")
+			if err := syscall.Exec(exe, os.Args, env); err != nil {
+				fmt.Fprintln(os.Stderr, "c13race: re-exec with exitcode=0 failed:", err)
+			}
+		}
+	}
 	run := vh.Start("c13race", "bare-pool concurrent mix only (for the race detector): 10 goroutines in the verifier role (exist, verifyTx, put), one in the pool "+
 		"actor's (notifications, removals, reports, queries, fetches), one in the monitor's (eviction, Size, Statistics). The property is evaluated at quiescence")
 	defer run.Finish()
